@@ -4,6 +4,7 @@ package main
 // per-architecture universe families, and `apko lock` + `apko build --lockfile` vs. the unlocked `apko build`.
 
 import (
+	apkfs "chainguard.dev/apko/pkg/apk/fs"
 	"archive/tar"
 	"bytes"
 	"compress/gzip"
@@ -375,6 +376,89 @@ func lkRunE2E(c lkCase) []Step {
 			}
 			extra = append(extra, Step{Line: "x.robust\tlock-subset-" + hx(strings.Join(c.World, ",")+"............")[:12], Go: got, Mode: "oracle-go", GoSpec: verdict, NoImpl: true,
 				Desc: fmt.Sprintf("lock for %v only, build --lockfile for %v: ", archs[:1], archs[len(archs)-1:]) + describeCase(rCase{Archs: c.Archs, World: c.World}, 0), Tags: []string{"e2e:lock-subset:" + strings.SplitN(got, " ", 2)[0]}})
+		}
+	}
+	// the same packages published a second time with the signature sections swapped (signed <-> unsigned), locked in the
+	// SAME process with a package cache configured (the CLI default): control and data sections are byte-identical across
+	// the two repositories, the files are not, and every range and checksum a lock records is about the file at its URL
+	if lerr == nil {
+		var mirrorSigned []string
+		for _, a := range c.Archs[:1] {
+			for _, ix := range a.Indexes {
+				for _, p := range ix.Pkgs {
+					if !contains(signed, p.Name) && !contains(mirrorSigned, p.Name) {
+						mirrorSigned = append(mirrorSigned, p.Name)
+					}
+				}
+			}
+		}
+		repos2, key2 := lkMaterialise(filepath.Join(work, "mirror"), c.Archs, mirrorSigned, true)
+		ic2, _ := lkConfig(c, repos2, key2)
+		cacheDir := filepath.Join(work, "pkgcache")
+		os.MkdirAll(cacheDir, 0o755)
+		got := ""
+		verdict := "pass"
+		for i, cfg := range []types.ImageConfiguration{ic, ic2} {
+			lp := filepath.Join(work, fmt.Sprintf("apko.mirror%d.lock.json", i))
+			err := verifapi.LockCmd(context.Background(), lp, archs, []build.Option{build.WithImageConfiguration(cfg), build.WithTempDir(ltmp), build.WithSBOMFormats(nil),
+				build.WithCache(cacheDir, false, apk.NewCache(true))})
+			r := "err"
+			if err == nil {
+				var lf lkLockFile
+				b, _ := os.ReadFile(lp)
+				if json.Unmarshal(b, &lf) != nil {
+					r = "bad:json"
+				} else {
+					r = lkCheckRanges(lf)
+				}
+			}
+			got += fmt.Sprintf("lock%d=%s ", i, r)
+			if r != "ok" && r != "err" && verdict == "pass" {
+				verdict = fmt.Sprintf("fail:lock %d of one process (package cache on; repository %d = same packages, signature sections swapped) records %s", i, i, r)
+			}
+		}
+		extra = append(extra, Step{Line: "x.robust\tlock-mirror-" + hx(strings.Join(c.World, ",")+"............")[:12], Go: strings.TrimSpace(got), Mode: "oracle-go", GoSpec: verdict, NoImpl: true,
+			Desc: "two locks in one process over mirrored repositories: " + describeCase(rCase{Archs: c.Archs, World: c.World}, 0), Tags: []string{"e2e:lock-mirror"}})
+	}
+	// `build --lockfile` for a build context whose architecture is given in its apk spelling (x86_64, aarch64 …; a
+	// types.Architecture is a plain string that every consumer re-parses): the image holds exactly what the lock lists
+	if lerr == nil {
+		var lf lkLockFile
+		b, _ := os.ReadFile(lockPath)
+		if json.Unmarshal(b, &lf) == nil {
+			a0 := c.Archs[0].Arch
+			want := 0
+			for _, p := range lf.Contents.Packages {
+				if p.Architecture == a0 {
+					want++
+				}
+			}
+			// the library entry point: `apko build` itself re-parses the architectures it is given
+			got, verdict := "err", "pass"
+			rtmp := filepath.Join(work, "tmp-r")
+			os.MkdirAll(rtmp, 0o755)
+			n, rerr := func() (int, error) {
+				bc, err := build.New(context.Background(), apkfs.NewMemFS(), build.WithImageConfiguration(ic), build.WithArch(types.Architecture(a0)),
+					build.WithSourceDateEpoch(time.Unix(1700000000, 0)), build.WithTempDir(rtmp), build.WithSBOMFormats(nil), build.WithLockFile(lockPath))
+				if err != nil {
+					return 0, err
+				}
+				if err := bc.BuildImage(context.Background()); err != nil {
+					return 0, err
+				}
+				inst, err := bc.InstalledPackages()
+				return len(inst), err
+			}()
+			if rerr == nil {
+				got = fmt.Sprintf("ok installed=%d listed=%d", n, want)
+				if n != want {
+					verdict = fmt.Sprintf("fail:the lock lists %d packages for %s but the image built from it for types.Architecture(%q) has %d", want, a0, a0, n)
+				}
+			} else if st["locked"] == "ok" {
+				verdict = fmt.Sprintf("fail:build --lockfile succeeds for %s and fails for the spelling %q: %v", lkOCI(a0), a0, rerr)
+			}
+			extra = append(extra, Step{Line: "x.robust\tlock-rawarch-" + hx(strings.Join(c.World, ",")+"............")[:12], Go: got, Mode: "oracle-go", GoSpec: verdict, NoImpl: true,
+				Desc: fmt.Sprintf("build --lockfile with build.WithArch(%q): ", a0) + describeCase(rCase{Archs: c.Archs, World: c.World}, 0), Tags: []string{"e2e:lock-rawarch:" + strings.SplitN(got, " ", 2)[0]}})
 		}
 	}
 	out := "build=" + st["build"] + " lock=" + st["lock"] + " ranges=" + st["ranges"] + " locked=" + st["locked"] + " same=" + st["same"] + " samefs=" + st["samefs"] + " pkgs=" + st["pkgs"]
